@@ -19,7 +19,7 @@ RULE = ("4 of 5 runs: battery bench (1-200 charge()/reset() calls on one battery
         "transition SoC or reaches >= 99.9% SoC; distinct = distinct (battery class, calc, noise?, tape, crossing pattern)")
 PROBES = ["crossed_transition", "reached_99_9", "noise_draw", "extreme_tape", "pilot_above_max", "tiny_pilot",
           "exactly_full_start", "world_runs", "stepwise_tail_noise", "long_period_call", "pilot_just_off_a_finite_level", "second_life", "refused_reset", "stochastic_network_world",
-          "control_loop_runs", "short_form_unplug_of_attached_vehicle", "session_without_id_unplugged", "network_json_roundtrip", "network_deepcopy"]
+          "control_loop_runs", "short_form_unplug_of_attached_vehicle", "network_json_roundtrip", "network_deepcopy"]
 FAULT_DIMENSION = "adversarial noise tape (the system's own randomness is the fault surface)"
 REAL_VS_STUB = "real: Battery, Linear2StageBattery, EV, EVSE, Simulator; ours: numpy.random.normal tape"
 ASSUMPTIONS = ["tolerances: 1e-9 relative + 1e-9 absolute on rate/power/charge comparisons",
@@ -67,7 +67,7 @@ def gen_loop(rs):
         st = r.randrange(n)
         if u < 0.25:
             b = gb(rs * 131 + k, True, "quick")["battery"]
-            ops.append({"op": "plugin", "station": st, "session": r.choice(["sess%d" % k, k, None]) if r.random() < 0.3 else "sess%d" % k,
+            ops.append({"op": "plugin", "station": st, "session": "sess%d" % k,
                         "battery": b, "requested": round(r.uniform(0.5, 60), 3), "legacy_station_arg": r.random() < 0.15})
             k += 1
         elif u < 0.45:
